@@ -153,7 +153,8 @@ def check(ctx):
         role = s.extra['role']
         o.count()
         okh = (role[0] == 'store' and s.cls is A and s.func.name in inv.covered(P, {'__init__', 'initialize'})) or (role[0] == 'method' and role[1] == 'append' and s.cls is A and s.func.name in inv.covered(P, {'add_value'})) \
-            or role[0] in ('return', 'iter', 'test', 'subscript-load') or (role[0] == 'method' and role[1] == 'copy')
+            or role[0] in ('return', 'iter', 'test', 'subscript-load') or (role[0] == 'method' and role[1] == 'copy') \
+            or (role[0] == 'arg' and role[1] in inv.READ_ONLY_CALLEES)          # list(history), len(history), sum(...): builtins that only read
         if not okh:
             o.fail(P, s.ctx, s.stmt, f'the value history is changed outside add_value ({role[0]})', file=s.mod.path, line=s.line)
     for prop, want in (('value', 'self._value'), ('value_history', 'self._value_history')):
